@@ -301,6 +301,14 @@ func c16IsNil(e ast.Expr) bool {
 
 // atom: a comparison -> boolean Gallina expression (with the bindings of its partial sub-expressions)
 func (t *c16Tr) atom(root *c16Root, e ast.Expr) (c16Expr, error) {
+	if p, ok := e.(*ast.ParenExpr); ok {
+		return t.atom(root, p.X)
+	}
+	if call, ok := e.(*ast.CallExpr); ok {
+		if r, isPred, err := t.inlinePred(root, call); isPred {
+			return r, err
+		}
+	}
 	x, ok := e.(*ast.BinaryExpr)
 	if !ok || (x.Op != token.EQL && x.Op != token.NEQ) {
 		return c16Expr{}, t.errf(e, "condition %s is outside the translated fragment", c16Str(e))
@@ -350,6 +358,108 @@ func (t *c16Tr) atom(root *c16Root, e ast.Expr) (c16Expr, error) {
 		return wrap("(rt_eq "+b.s+" "+a.s+")", binds)
 	}
 	return c16Expr{}, t.errf(e, "comparison of a %s with a %s", a.ty, b.ty)
+}
+
+// ---- predicate helpers: a condition (or a part of one) that was moved into a private function of the package
+// whose body is a single `return <boolean expression>` is inlined before it is translated: f(a, b) becomes the
+// returned expression with the parameters bound to the (translated) arguments. Go evaluates the arguments before
+// the call, so their partial sub-expressions (s[0], s[1:]) are bound in front of the whole condition. A helper whose
+// body is anything else, or whose expression is outside the fragment, leaves the source shape unrecognised.
+
+var c16Repo string
+var c16Preds map[string]*ast.FuncDecl
+var c16PredDepth int
+
+func c16SetRepo(repo string) {
+	if repo != c16Repo {
+		c16Repo, c16Preds = repo, nil
+	}
+}
+
+func c16FindPred(name string) *ast.FuncDecl {
+	if c16Preds == nil {
+		c16Preds = map[string]*ast.FuncDecl{}
+		files, _ := filepath.Glob(filepath.Join(c16Repo, "compose", "*.go"))
+		sort.Strings(files)
+		fset := token.NewFileSet()
+		seen := map[string]int{}
+		for _, p := range files {
+			if strings.HasSuffix(p, "_test.go") {
+				continue
+			}
+			f, err := parser.ParseFile(fset, p, nil, 0)
+			if err != nil {
+				continue
+			}
+			for _, d := range f.Decls {
+				fn, ok := d.(*ast.FuncDecl)
+				if !ok || fn.Recv != nil {
+					continue
+				}
+				seen[fn.Name.Name]++
+				if fn.Body == nil || fn.Type.TypeParams != nil || fn.Type.Results == nil || len(fn.Type.Results.List) != 1 ||
+					len(fn.Type.Results.List[0].Names) != 0 || c16Str(fn.Type.Results.List[0].Type) != "bool" || len(fn.Body.List) != 1 {
+					continue
+				}
+				if ret, ok := fn.Body.List[0].(*ast.ReturnStmt); ok && len(ret.Results) == 1 {
+					c16Preds[fn.Name.Name] = fn
+				}
+			}
+		}
+		for n, k := range seen {
+			if k > 1 { // declared in several files (build tags): which one is compiled is not decided here
+				delete(c16Preds, n)
+			}
+		}
+	}
+	return c16Preds[name]
+}
+
+// inlinePred: isPred = the call is to a predicate helper (then the result or the error is final)
+func (t *c16Tr) inlinePred(root *c16Root, call *ast.CallExpr) (c16Expr, bool, error) {
+	id, ok := call.Fun.(*ast.Ident)
+	if !ok || call.Ellipsis.IsValid() || c16Repo == "" {
+		return c16Expr{}, false, nil
+	}
+	if _, local := t.vars[id.Name]; local {
+		return c16Expr{}, false, nil
+	}
+	fn := c16FindPred(id.Name)
+	if fn == nil {
+		return c16Expr{}, false, nil
+	}
+	var params []string
+	for _, fl := range fn.Type.Params.List {
+		if _, variadic := fl.Type.(*ast.Ellipsis); variadic || len(fl.Names) == 0 {
+			return c16Expr{}, false, nil
+		}
+		for _, n := range fl.Names {
+			params = append(params, n.Name)
+		}
+	}
+	if len(params) != len(call.Args) || c16PredDepth >= 3 {
+		return c16Expr{}, false, nil
+	}
+	tc := t.clone()
+	tc.vars, tc.idx = map[string]c16Var{}, map[string]string{}
+	var binds []c16Bind
+	for i, a := range call.Args {
+		b, err := t.expr(root, a)
+		if err != nil {
+			return c16Expr{}, true, err
+		}
+		if params[i] != "_" {
+			tc.vars[params[i]] = c16Var{b.s, b.ty}
+		}
+		binds = append(binds, b.binds...)
+	}
+	c16PredDepth++
+	s, pure := tc.pureCond(root, fn.Body.List[0].(*ast.ReturnStmt).Results[0])
+	c16PredDepth--
+	if !pure {
+		return c16Expr{}, true, t.errf(call, "condition %s: the body of the helper %s is outside the translated fragment", c16Str(call), id.Name)
+	}
+	return c16Expr{s, "bool", binds}, true, nil
 }
 
 func c16WrapBinds(binds []c16Bind, body, ind string) string {
@@ -1123,6 +1233,7 @@ func c16DeepCopy(f *ast.File) (string, error) {
 // ---------------------------------------------------------------------------------------------- extractors
 
 func c16ExtractOption(repo string) (string, string, error) {
+	c16SetRepo(repo)
 	fset := token.NewFileSet()
 	fo, err := c16ParseGo(fset, repo, "compose", "graph_call_options.go")
 	if err != nil {
@@ -1170,6 +1281,7 @@ func c16ExtractOption(repo string) (string, string, error) {
 }
 
 func c16ExtractCallbacks(repo string) (string, string, error) {
+	c16SetRepo(repo)
 	fset := token.NewFileSet()
 	f, err := c16ParseGo(fset, repo, "compose", "utils.go")
 	if err != nil {
@@ -1784,6 +1896,7 @@ func c16CoqStr(s string) string { return `"` + strings.ReplaceAll(s, `"`, `""`) 
 // statement; the checkOption closure that toComposableRunnable installs for a graph used as a node:
 //   tos, err := convertOption[Option](opts...); if err != nil { return err }; _, err = r.extractOption(tos...); return err
 func c16ExtractValidate(repo string) (string, string, error) {
+	c16SetRepo(repo)
 	fset := token.NewFileSet()
 	f, err := c16ParseGo(fset, repo, "compose", "graph_run.go")
 	if err != nil {
